@@ -10,6 +10,11 @@ K.register_module("std_mod", "src/stdlib/mod_func.rs", "stdlib::mod_func::kani_v
 K.register_module("std_to_int", "src/stdlib/to_int.rs", "stdlib::to_int::kani_verif", STD)
 K.register_module("std_to_float", "src/stdlib/to_float.rs", "stdlib::to_float::kani_verif", STD)
 K.register_module("std_format_int", "src/stdlib/format_int.rs", "stdlib::format_int::kani_verif", STD)
+K.register_module("query", "src/compiler/expression/query.rs", "compiler::expression::query::kani_verif", "compiler")
+K.register_module("assignment", "src/compiler/expression/assignment.rs", "compiler::expression::assignment::kani_verif", "compiler")
+K.register_module("runtime", "src/compiler/runtime.rs", "compiler::runtime::kani_verif", "compiler")
+K.register_module("std_del", "src/stdlib/del.rs", "stdlib::del::kani_verif", STD)
+K.register_module("std_exists", "src/stdlib/exists.rs", "stdlib::exists::kani_verif", STD)
 K.register_module("op", "src/compiler/expression/op.rs", "compiler::expression::op::kani_verif", "compiler")
 
 COMMON_TRUSTED = [
@@ -71,10 +76,10 @@ INTERP_NOT_COVERED = ["stdlib function bodies that evaluate their arguments (eac
 PROPS["C06"] = dict(
     level="proof",
     text="`return` cannot be intercepted: Ctl contract on every interpreter node that evaluates children (real bodies extracted, Verus), the From<ValueError> conversion, the closure Runner (return = iteration value), Return::resolve raises exactly the value",
-    verus=["v_nodes", "v_op_resolve", "v_value_error_from", "v_closure_runner"],
+    verus=["v_nodes", "v_op_resolve", "v_value_error_from", "v_closure_runner", "v_target_ops"],
     kani=[],
     scans=["expr_variants", "closure_callers"],
-    trusted=INTERP_TRUSTED + ["Runtime::resolve's final match (Return -> Ok(value)) is covered by the Kani unit of C17 (k_runtime_*) when registered"],
+    trusted=INTERP_TRUSTED,
     not_covered=INTERP_NOT_COVERED,
     technique="contract-based deductive verification (Verus on mechanically extracted real bodies; Kani for the try_or callee contract)",
 )
@@ -138,6 +143,20 @@ PROPS["C25"] = dict(
     trusted=["std::char::from_digit and i64::from_str_radix contracts (assumed, std)", "String = chars in order (the final collect)", "format_int's base check `(2..=36).contains(&base)` establishes the radix precondition (read, not verified)"],
     not_covered=["flatten/unflatten, to_entries/from_entries, ip_* pairs (std Ipv4Addr/Ipv6Addr parsers)", "format_timestamp/parse_timestamp (chrono strftime/strptime)", "to_unix_timestamp/from_unix_timestamp (chrono arithmetic; Kani unit pending)"],
     technique="contract-based deductive verification (Verus on the mechanically extracted real body, loop invariant + nonlinear lemmas)",
+)
+
+PROPS["C17"] = dict(
+    level="proof",
+    text="target faults are contained: every vrl call site of the embedder's Target (Query::resolve, assignment Target::insert, del, exists, Runtime::resolve) verified by Verus on the extracted real body against a target whose every answer (value, nothing, fault) is arbitrary",
+    verus=["v_target_ops"],
+    kani=[],
+    scans=["target_call_sites"],
+    trusted=["verus prelude interp.rs/target.rs: TargetObj = the embedder's `dyn Target` with uninterpreted read answers and a ghost log of insert/remove operations and their outcomes",
+             "'a rejected write leaves the target unchanged' is the embedder's obligation; what vrl owes (one operation, no retry, no write elsewhere, no panic) is what is proved",
+             "std: Result::ok, Option::flatten (assume_specification), Option::cloned/unwrap_or/is_some (vstd)",
+             "Context::new bundles the three borrows; running the program inside Runtime::resolve is the child contract resolve_with"],
+    not_covered=["unnest (target_get_mut) - frame scan lists it; no contract yet", "metadata vs event prefix handling inside the embedder"],
+    technique="contract-based deductive verification (Verus on mechanically extracted real bodies)",
 )
 
 HOOK_COMMITS = ["8978857", "33091a8"]
